@@ -1,5 +1,6 @@
 import SynthVerif.Src.Prelude
 import SynthVerif.Model.Ribbon
+import SynthVerif.Model.Midi
 /-!
 # Dependency crates as the translated source sees them   (hand-written; no Mathlib)
 
@@ -9,6 +10,9 @@ crate uses them.  They are part of the trusted base of tie 1d and are validated,
 bit-exact correspondence runs (the harness calls the real dependency code).
 
 * `heapless::HistoryBuffer<f32, N>` is `HistBuf` of `Model/Ribbon.lean`; `Iterator::sum::<f32>()` is `Deps.fsum`.
+* `midi-convert` / `midi-types`: the byte parser is `parserStep` / `ParserState` / `MidiMsg` of `Model/Midi.lean`; the
+  value newtypes (`Channel`, `Note`, `Value7`, `Control`) are their `u8`; `f32::from(Value14)` is `value14ToF32`.
+  `heapless::Vec<u8, N>` is a `List` with a capacity check on `push`; `Iterator::max` / `min` are `Deps.iterMax` / `iterMin`.
 * `biquad 0.4.2`: `Hertz<f32>`, `ToHertz::hz`, `Coefficients::<f32>::from_params` for the filter type in use,
   `DirectForm1::<f32>` (`new`, `run`, `update_coefficients`).
 -/
@@ -78,5 +82,15 @@ def DirectForm1.run (d : DirectForm1) (x : F32) : DirectForm1 × F32 :=
   let out := F32.sub (F32.sub (F32.add (F32.add (F32.mul c.b0 x) (F32.mul c.b1 d.x1)) (F32.mul c.b2 d.x2)) (F32.mul c.a1 d.y1))
     (F32.mul c.a2 d.y2)
   ({ d with x2 := d.x1, x1 := x, y2 := d.y1, y1 := out }, out)
+
+/-- `Iterator::max()` over `u8`s: `None` for an empty iterator -/
+def iterMax : List Nat → Option Nat
+  | [] => none
+  | x :: xs => some (xs.foldl Nat.max x)
+
+/-- `Iterator::min()` -/
+def iterMin : List Nat → Option Nat
+  | [] => none
+  | x :: xs => some (xs.foldl Nat.min x)
 
 end Deps
